@@ -246,6 +246,17 @@ class FeArray(np.ndarray):
         else:
             return FeArray.asfearray(self)
 
+    @staticmethod
+    def _check_contracted(array1, array2, ndim2: int, n: int) -> None:
+        """einsum would broadcast a size-1 contracted axis; a contraction must not."""
+        shape1 = np.shape(array1)[-n:]
+        start = np.ndim(array2) - ndim2
+        shape2 = np.shape(array2)[start : start + n]
+        if shape1 != shape2:
+            raise ValueError(
+                f"cannot contract axes of shape {shape1} with axes of shape {shape2}."
+            )
+
     def __matmul__(self, other) -> FeArrayALike:
         ndim1 = self._ndim
 
@@ -264,8 +275,10 @@ class FeArray(np.ndarray):
         elif ndim1 == ndim2 == 2:
             return super().__matmul__(other)
         elif ndim1 == 1 and ndim2 == 2:
+            FeArray._check_contracted(self, other, ndim2, 1)
             return FeArray.asfearray(np.einsum("...i,...ij->...j", self, other))
         elif ndim1 == 2 and ndim2 == 1:
+            FeArray._check_contracted(self, other, ndim2, 1)
             return FeArray.asfearray(np.einsum("...ij,...j->...i", self, other))
         else:
             return self.dot(other)
@@ -310,6 +323,7 @@ class FeArray(np.ndarray):
                 "`other` must be at least a finite element vector (Ne, nPg, i)."
             )
 
+        FeArray._check_contracted(self, other, ndim2, 1)
         result = np.einsum(self._dot_subscript(ndim1, ndim2), self, other)
 
         return FeArray.asfearray(result)
@@ -336,6 +350,7 @@ class FeArray(np.ndarray):
                 "`other` must be at least a finite element matrix (Ne, nPg, i, j)."
             )
 
+        FeArray._check_contracted(self, other, ndim2, 2)
         result = np.einsum(self._ddot_subscript(ndim1, ndim2), self, other)
 
         return result.view(FeArray)
